@@ -145,8 +145,11 @@ def run_shard(shard, acc):
     @given(st.data())
     def body(data):
         logic = data.draw(gen.logic_name())
+        serial_share = data.draw(st.integers(0, 11)) == 0
+        if serial_share:
+            logic = 'D'         # the only logic with the Serial rule: its own share, modal-heavy sentences
         V = R.values(logic)
-        if data.draw(st.integers(0, 3)) == 0:
+        if not serial_share and data.draw(st.integers(0, 3)) == 0:
             # second stream: a near-miss of a standard valid form; search a countermodel among drawn models
             prem, con = near_valid_argument(data, logic)
             M = None
@@ -183,6 +186,9 @@ def run_shard(shard, acc):
         M.opaque_fill = lambda w, s: V[data.draw(st.integers(0, len(V) - 1))]
         ident_heavy = data.draw(st.integers(0, 4)) == 0
         prof = profile_for(logic, M.consts, ident_heavy)
+        if serial_share:
+            prof = gen.Profile(consts=tuple(M.consts), w_atom=5, w_pred=1, w_ident=0, w_neg=4, w_assert=0, w_bin=3, w_modal=12, w_quant=0,
+                               max_depth=4, natoms=2)
         sents = [data.draw(gen.sentence(prof)) for _ in range(data.draw(st.integers(4, 8)))]
         des, und = [], []
         for s in sents:
